@@ -13,6 +13,7 @@
 //   CP cid sid key  CC key  CB cid sid key  CF           (commit worker; CB/CF = the two halves of
 //                                                          proposalShard.committed, replay only)
 //   XR  XP k  XC  XS  XL                                 (node.close(), table by table)
+//   XQ cid sid key to pick    close of the shard of key gets the shard lock while a propose(key) is under way
 // observation: one line per case, one token per op: <what>=<table sizes>.
 package main
 
@@ -371,6 +372,23 @@ func (w *world) doOp(f []string) string {
 		}
 		w.committed[k] = true
 		v.CommittedConfigChange(w.real(w.ccKey, u(f[1])))
+	case "XQ":
+		// proposalShard.close() wins the shard lock against a propose() that is already under way
+		cid, sid, key, to := u(f[1]), u(f[2]), u(f[3]), u(f[4])
+		name := fmt.Sprintf("XP %d", key%w.ps)
+		if w.closed[name] {
+			w.assumeBad = true
+		}
+		w.closed[name] = true
+		w.closedAny = true
+		rs, err := v.CloseRacingPropose(cid, sid, key, to)
+		code := dragonboat.VerifC12ErrCode(err)
+		if to == 0 {
+			return fmt.Sprintf("XQ-:%d", code)
+		}
+		r := w.accept('P', rs, err == nil, to)
+		r.nc, r.cid, r.sid, r.key = w.nc, cid, sid, key
+		return fmt.Sprintf("XQ%d:%d", len(w.reqs)-1, code)
 	case "XR", "XC", "XS", "XL", "XP":
 		name := strings.Join(f, " ")
 		if f[0] == "XP" {
